@@ -382,7 +382,7 @@ class ExpressionCall(EntryVC):
 
     def configure(self, I):
         EntryVC.configure(self, I)
-        from pyvc.ops import isinst_fn  # noqa: F401
+        I.inline.add("jinja2.environment:TemplateExpression._consume_async")
 
     def setup(self, I, st):
         kind, loc = EntryVC.setup(self, I, st)
@@ -400,6 +400,8 @@ class ExpressionCall(EntryVC):
         rr = A.calls(out, "root_render_func")
         if not ncs:
             return None
+        if A.calls(out, "asyncio.run") and not cons:
+            return len(rr) == 1 and rr[0].args[1] is ncs[0].result  # async environment: the stream is drained by _consume_async
         if out.raised and not cons:
             return len(rr) == 1 and rr[0].args[1] is ncs[0].result  # the render function itself raised
         return len(rr) == 1 and rr[0].args[1] is ncs[0].result and len(cons) == 1 and cons[0].args[0] is rr[0].result
@@ -989,7 +991,8 @@ def emitted_tasks():
     t.bound_text = "from-import with two imported names (one aliased)"
     ts.append(t)
     from contracts.emit_template import TemplateEmitTask
-    tt = TemplateEmitTask("C29", "C29.frame.emitted.visit_Template", template_writes_pred, replay_fn=replay_emitted, min_paths=8, n_blocks=1, n_imports=1)
+    tt = TemplateEmitTask("C29", "C29.frame.emitted.visit_Template", template_writes_pred, replay_fn=replay_emitted, min_paths=8, n_blocks=1, n_imports=1,
+                          configure=c03.install_nfkc)
     tt.bound_text = "template with 1 block and 1 imported name (body abstract)"
     ts.append(tt)
     ts += c03.store_guard_tasks(prop="C29", prefix="C29.frame.emitted.item_store_guarded")
